@@ -444,6 +444,7 @@ def visit_one(ex, obj, cc, x, line):
         r = Z(ex.fresh("visited", S.Py), origin="result of self.visit")
     for attr, expr in cc.get("visit_effects", {}).items():
         obj.attrs[attr] = eval_spec_expr(ex, expr, env)
+    _havoc_visit_globals(ex, cc, line)
     env["result"] = r
     ex.assuming = getattr(ex, "assuming", 0) + 1
     try:
@@ -453,6 +454,18 @@ def visit_one(ex, obj, cc, x, line):
         ex.assuming -= 1
     r.fresh = "no"
     return r
+
+
+def _havoc_visit_globals(ex, cc, line):
+    """Module variables a visit may write ("visit_globals" of the class): unknown afterwards, and
+    they must be in the frame of the function that makes the visit."""
+    for gn in cc.get("visit_globals", []):
+        cm = ex.contract.get("modifies", [])
+        if "*" not in cm and f"global.{gn}" not in cm:
+            ex.oblige_trivial("frame", f"write:global.{gn} (through self.visit)", False, line,
+                              note=f"a visit may write the module variable {gn}")
+        old_v = ex.global_value(gn, {})
+        ex.ctx.globals_now[gn] = Z(ex.fresh(f"global.{gn}'", old_v.t.sort()))
 
 
 def visit_list(ex, obj, cc, seq, line):
@@ -544,6 +557,7 @@ def generic_visit(ex, obj, cc, x, line):
             r = Z(ex.fresh("gvisited", S.Py), origin="generic_visit result")
         for attr, expr in cc.get("generic_effects", {}).items():
             obj.attrs[attr] = eval_spec_expr(ex, expr, env)
+        _havoc_visit_globals(ex, cc, line)
         env["result"] = r
         for e_ in cc.get("generic_ensures", []):
             ex.assume(ex.to_bool(eval_spec_expr(ex, e_, env)))
@@ -799,6 +813,8 @@ def run_one_path(ex, c, fnode, is_method, res):
                           note=f"self.{attr} after the call: provenance "
                                f"{getattr(v, 'origin', None)}, freshness {getattr(v, 'fresh', None)}")
     want_fresh = c.get("fresh")
+    if c.get("fresh_trusted"):
+        want_fresh = None      # the freshness callers rely on is a stated assumption of this contract
     if want_fresh in ("node", "shallow", "deep") and isinstance(result, Z):
         order = {"no": 0, "node": 1, "shallow": 2, "deep": 3}
         ok = order[result.fresh] >= order[want_fresh]
